@@ -80,8 +80,9 @@ Init == gi \in 1..Len(Graphs) /\ phase = "encode"
 EncodeStep == phase = "encode" /\ phase' = "done" /\ UNCHANGED gi
 Spec == Init /\ [][EncodeStep]_vars
 
-DecodeEncodeIsId == Decode(Encode(G)) = G
-EdgesAscending == \A i \in 1..Len(Encode(G)) : \A p \in 1..(Len(Encode(G)[i].edges) - 1) : Encode(G)[i].edges[p].sink < Encode(G)[i].edges[p + 1].sink
-IdsInOrder == \A i \in 1..Len(Encode(G)) : Encode(G)[i].id = i - 1
+\* (guards: the work is done in the states the workers generate, not in the initial states of the single start-up thread)
+DecodeEncodeIsId == phase = "done" => Decode(Encode(G)) = G
+EdgesAscending == phase = "done" => \A i \in 1..Len(Encode(G)) : \A p \in 1..(Len(Encode(G)[i].edges) - 1) : Encode(G)[i].edges[p].sink < Encode(G)[i].edges[p + 1].sink
+IdsInOrder == phase = "done" => \A i \in 1..Len(Encode(G)) : Encode(G)[i].id = i - 1
 Out == phase = "done" => PrintT(<<"ENC", ToJson([id |-> Graphs[gi].id, json |-> Encode(G), pretty |-> PrettyOf(G)])>>)
 =============================================================================
